@@ -189,7 +189,7 @@ func init() {
 	campaigns["C14"] = func(c *Ctx) {
 		sub := gridOf(subScheme, subHosts, subPaths, subQuery, gFrags)
 		full := gridOf(gSchemes, gHosts, gPaths, gQueries, gFrags)
-		c.Rule = fmt.Sprintf("exhaustive: all %d ordered pairs of a %d-URL grid (2 scheme presentations x 3 host presentations x 6 paths with trailing slash/dot segments/case x 5 queries with reordered and repeated parameters x 2 fragments), checkScheme alternating (thorough: both); stratified random pairs from the %d-URL full grid; random non-URL byte strings (controls, invalid UTF-8, partial URLs); IRIs.Contains on random lists. Non-trivial = the two strings differ.", len(sub)*len(sub), len(sub), len(full))
+		c.Rule = fmt.Sprintf("exhaustive: all %d ordered pairs of a %d-URL grid (2 scheme presentations x 3 host presentations x 6 paths with trailing slash/dot segments/case x 5 queries with reordered and repeated parameters x 2 fragments), checkScheme alternating (thorough: both); stratified random pairs from the %d-URL full grid; all pairs of the 85 strings of length <= 3 over {#, a, :, /}; random non-URL byte strings (controls, invalid UTF-8, partial URLs); IRIs.Contains on random lists. Non-trivial = the two strings differ.", len(sub)*len(sub), len(sub), len(full))
 		n := 0
 		for _, a := range sub {
 			for _, b := range sub {
@@ -212,6 +212,25 @@ func init() {
 				}
 			}
 			c14GridPair(c, a, b, c.R.Bool())
+		}
+		// every pair of short strings over the characters the textual fast path looks at
+		var short []string
+		short = append(short, "")
+		alpha := []string{"#", "a", ":", "/"}
+		for n, prev := 1, []string{""}; n <= 3; n++ {
+			var cur []string
+			for _, p := range prev {
+				for _, ch := range alpha {
+					cur = append(cur, p+ch)
+				}
+			}
+			short = append(short, cur...)
+			prev = cur
+		}
+		for i, a := range short {
+			for j, b := range short {
+				c14StringPair(c, a, b, (i+j)%2 == 0)
+			}
 		}
 		for i := 0; i < c.N(8000, 150000); i++ {
 			a := c14RandString(c.R)
